@@ -494,16 +494,17 @@ fn gd_frag_cycle(line: &str) -> String {
     })
 }
 
-/// input: `<ast dump> <hex document source>`; output: `rec=<n> used=<n> defer_root=<n> uncond=<n>`:
-/// the number of RecursionError diagnostics (unused-variable walk, subscription walk), of
-/// RecursionLimitError diagnostics without location (fragments-used walk), and of the diagnostics of the
-/// two @defer walks that follow fragment spreads.
+/// input: `<ast dump> <hex document source> <schema dump>`; output: `rec=<n> used=<n> defer_root=<n> uncond=<n> undef=<n>`:
+/// the number of RecursionError diagnostics (unused-variable walk, selection validation, @defer walks,
+/// subscription walk), of RecursionLimitError diagnostics without location (fragments-used walk), of the
+/// diagnostics of the two @defer walks that follow fragment spreads, and of UndefinedFragment diagnostics
+/// (pushed by the selection validation walk for every spread of an undefined fragment it visits).
 fn gd_walk(line: &str) -> String {
     let src = unhex(line.split(' ').nth(1).expect("source"));
     big(move || {
         let schema = exec_schema();
         let (_doc, errs) = validate_doc_text(&schema, src);
-        let (mut rec, mut used, mut root, mut uncond, mut merge) = (0, 0, 0, 0, 0);
+        let (mut rec, mut used, mut root, mut uncond, mut merge, mut undef) = (0, 0, 0, 0, 0, 0);
         if let Some(errs) = &errs {
             for d in errs.iter() {
                 match d.error.unstable_error_name() {
@@ -517,12 +518,13 @@ fn gd_walk(line: &str) -> String {
                     }
                     Some("DeferOnRootMutationOrSubscriptionField") => root += 1,
                     Some("DeferInSubscriptionMustBeConditional") => uncond += 1,
+                    Some("UndefinedFragment") => undef += 1,
                     _ => {}
                 }
             }
         }
         let _ = merge;
-        format!("rec={rec} used={used} defer_root={root} uncond={uncond}")
+        format!("rec={rec} used={used} defer_root={root} uncond={uncond} undef={undef}")
     })
 }
 
